@@ -1,5 +1,6 @@
 """C06 only authorised transactions change state.  Auth.tla defines what "the holders authorised exactly this content"
-means for a case (account configuration x signature sequence x field changed after signing x gas payer x box x kind)
+means for a case (account configuration x signature sequence x field changed after signing x gas payer (another account / the
+sender account itself) x box (as signed / its JSON data re-written after signing) x kind)
 and a model of the node's decision procedure; TLC enumerates the case space and checks the clauses of the property on
 every case.  Every case is instantiated as a REAL signed transaction (real keys, real signing hashes, real
 multi-signature accounts configured by real ModifySignersTx) and handed to a real mining node and, inside a block
@@ -16,10 +17,14 @@ MANIFEST = dict(
          "with weights from {1,49,50,51,100} (total >= 100; plus two 4-signer accounts), every sequence of up to 3 signatures by registered signers / "
          "the account's own key / a foreign key in both signature encodings, malformed signature bytes, each of 12 signed fields changed after any "
          "subset of an honest signature set was made, reimbursed-gas transactions (plain and multi-signature payer; payer signatures missing / foreign / "
-         "repeated / made before gas terms, payer field or sender signatures changed), box-wrapped transactions (also reimbursed ones, and a box signed "
-         "by a foreign key), vote and asset-creation transactions and re-configurations of the signers - and checks ten clauses on each (effect only if "
+         "repeated / made before gas terms, payer field or sender signatures changed), the same reimbursed form naming the sender account itself as "
+         "gas payer (plain and multi-signature, all payer-side tamper classes), box-wrapped transactions (also reimbursed ones, and a box signed "
+         "by a foreign key), boxes whose JSON data was re-written after the box sender signed (sub-transaction field changed, re-signed by its own "
+         "holders or not, signature replaced, gas terms raised by the payer; \"hash\" member true / absent / that of the replaced sub-transaction / "
+         "arbitrary), vote and asset-creation transactions and re-configurations of the signers - and checks thirteen clauses on each (effect only if "
          "authorised, canonical accepted, repetition / foreign keys / removal never help, encoding irrelevant, tampering falsifies, payer binds, exact "
-         "threshold, re-configuration iff packaged). Every case is replayed as a real signed transaction on a real mining node (MineBlock) and, in a block, "
+         "threshold, re-configuration iff packaged, every changed field covered by a later signature, box binds its sub-transactions, JSON hash label "
+         "irrelevant). Every case is replayed as a real signed transaction on a real mining node (MineBlock) and, in a block, "
          "on a second real node (InsertBlock; forged block with the executed state roots when the miner refused); TLC validates every logged outcome and "
          "account-state delta against the monitor: any effect => Authorized for the really registered signers, canonical authorised => packaged and "
          "accepted, effect = that of the submitted content, refusal changes nothing. A seeded driver does the same for random large accounts "
@@ -69,6 +74,12 @@ def run(ctx):
     ctx.extra["negative_control_per_signature_weights_violates"] = neg["inv"]
     if not neg["inv"]:
         raise vlib.Broken("negative control: the model with %s on must violate a clause\n%s" % (DEV, neg["out"][-2000:]))
+    # ... and so do two wrong decision procedures in the areas "the sender reimburses itself" and "re-written box data"
+    for cfg, model, clause in (("MCAuth_neg_own.cfg", "Neg_OwnPayerUnchecked", "ChangeCovered"), ("MCAuth_neg_box.cfg", "Neg_BoxTrustsLabel", "BoxBinds")):
+        n2 = ctx.tlc("MCAuth", cfg, timeout=300, expect_ok=False)
+        ctx.extra["negative_control_%s_violates" % model] = n2["inv"]
+        if n2["inv"] != clause:
+            raise vlib.Broken("negative control: the model %s must violate %s\n%s" % (model, clause, n2["out"][-2000:]))
     # ---- every case on the real code
     files, summ = ctx.replay("auth", graph=dot, shards=16, maxlen=60, timeout=2400)
     ok = ctx.validate("TraceAuth", "TraceAuth.cfg", files, what="every enumerated case on real nodes", timeout=2400)
@@ -94,5 +105,6 @@ def run(ctx):
         "the validating node is offered, for a refused transaction, the block of a dishonest deputy: header roots obtained by mining a properly signed "
         "twin with the same content, transaction replaced, header re-signed with the deputy's key; the twin's own block must be accepted (harness check)",
         "exact gas fees are not checked here (C05): the payer's balance must fall, the recipient's must rise by the signed amount",
+        "a box carries one sub-transaction; the box sender's signature is taken to cover the sub-transaction's identity (content and signature bytes)",
         "transaction kinds: transfer, vote, asset creation, signer re-configuration, box (the quick tier uses accounts of up to 2 signers plus "
         "{1,49,50} and {49,50,51}); signature recovery (secp256k1) is trusted"]
